@@ -166,12 +166,29 @@ pub mod verif_hooks {
     thread_local! {
         static POLLS: Cell<u64> = const { Cell::new(0) };
         static STOP_AT: Cell<u64> = const { Cell::new(0) };
+        static STOPPED_AT: std::cell::RefCell<Option<String>> = const { std::cell::RefCell::new(None) };
     }
 
     /// Reset the poll counter; `stop_at` = 0 never stops, k > 0 stops from the k-th poll on.
     pub fn arm(stop_at: u64) {
         POLLS.with(|p| p.set(0));
         STOP_AT.with(|s| s.set(stop_at));
+        STOPPED_AT.with(|s| *s.borrow_mut() = None);
+    }
+
+    /// Called by the search at the node where it observes its stop: remembers that position (FEN).
+    pub fn note_stop(fen: impl FnOnce() -> String) {
+        STOPPED_AT.with(|s| {
+            let mut s = s.borrow_mut();
+            if s.is_none() {
+                *s = Some(fen());
+            }
+        });
+    }
+
+    /// The position recorded by `note_stop` since the last `arm`, if any.
+    pub fn stopped_at() -> Option<String> {
+        STOPPED_AT.with(|s| s.borrow().clone())
     }
 
     pub fn polls() -> u64 {
